@@ -19,6 +19,8 @@ package mqtt
 
 // ---- in-flight table: map view (C08-C11) ----
 // verif:func mqtt.Inflight.Set
+//@ requires C32-lock-not-held-by-this-goroutine: i.RWMutex.lheld == 0
+//@ ensures C32-lock-released-on-return: i.RWMutex.lheld == 0
 //@ requires i.internal != nil
 //@ modifies entries(i.internal)
 //@ ensures result: r0 <==> !old(has(i.internal, m.PacketID))
@@ -27,13 +29,19 @@ package mqtt
 //@ ensures size: len(i.internal) == old(len(i.internal)) + (r0 ? 1 : 0)
 
 // verif:func mqtt.Inflight.Get
+//@ requires C32-lock-not-held-by-this-goroutine: i.RWMutex.lheld == 0
+//@ ensures C32-lock-released-on-return: i.RWMutex.lheld == 0
 //@ ensures found: r1 <==> has(i.internal, id)
 //@ ensures value: r1 ==> r0 == i.internal[id]
 
 // verif:func mqtt.Inflight.Len
+//@ requires C32-lock-not-held-by-this-goroutine: i.RWMutex.lheld == 0
+//@ ensures C32-lock-released-on-return: i.RWMutex.lheld == 0
 //@ ensures r0 == len(i.internal)
 
 // verif:func mqtt.Inflight.Delete
+//@ requires C32-lock-not-held-by-this-goroutine: i.RWMutex.lheld == 0
+//@ ensures C32-lock-released-on-return: i.RWMutex.lheld == 0
 //@ modifies entries(i.internal)
 //@ ensures result: r0 <==> old(has(i.internal, id))
 //@ ensures removed: !has(i.internal, id)
@@ -63,6 +71,8 @@ package mqtt
 // ---- C10: outbound packet identifiers are in 1..max and not in use ----
 // verif:def maxID(cl *Client) uint32 = cl.ops.options.Capabilities.maximumPacketID
 // verif:func mqtt.Client.NextPacketID
+//@ requires C32-lock-not-held-by-this-goroutine: cl.RWMutex.lheld == 0
+//@ ensures C32-lock-released-on-return: cl.RWMutex.lheld == 0
 //@ requires cl.ops != nil && cl.ops.options != nil && cl.ops.options.Capabilities != nil && cl.State.Inflight != nil
 //@ requires maxID(cl) <= 65535 && cl.State.packetID <= maxID(cl)
 //@ modifies cl.State.packetID
@@ -131,6 +141,8 @@ package mqtt
 // verif:def samePk(a Packet, b Packet) bool = a.FixedHeader == b.FixedHeader && a.PacketID == b.PacketID && a.ReasonCode == b.ReasonCode && a.ReasonCodes == b.ReasonCodes && a.SessionPresent == b.SessionPresent && a.TopicName == b.TopicName && a.Properties.TopicAlias == b.Properties.TopicAlias
 
 // verif:func mqtt.Client.WritePacket
+//@ requires C32-lock-not-held-by-this-goroutine: cl.RWMutex.lheld == 0
+//@ ensures C32-lock-released-on-return: cl.RWMutex.lheld == 0
 //@ modifies cl.nsent, cl.sentpk, lastNow, cl.Net.outbuf, cl.Net.outbuf.rpos, cl.Net.outbuf.blen, cl.Net.outbuf.bdata, cl.ops.info.BytesSent, cl.ops.info.PacketsSent, cl.ops.info.MessagesSent
 //@ requires cl != nil && cl.ops != nil
 //@ requires cl.ops.options != nil
@@ -296,6 +308,8 @@ package mqtt
 // Outbound table invariant: aliases are 1..cursor, cursor <= maximum, distinct topics have distinct aliases.
 // verif:def outInv(a *OutboundTopicAliases) bool = a.internal != nil && a.cursor <= uint32(a.maximum) && (forall t string :: has(a.internal, t) ==> 1 <= a.internal[t] && uint32(a.internal[t]) <= a.cursor) && (forall t string, u string :: has(a.internal, t) && has(a.internal, u) && a.internal[t] == a.internal[u] ==> t == u)
 // verif:func mqtt.OutboundTopicAliases.Set
+//@ requires C32-lock-not-held-by-this-goroutine: a.RWMutex.lheld == 0
+//@ ensures C32-lock-released-on-return: a.RWMutex.lheld == 0
 //@ requires outInv(a)
 //@ modifies entries(a.internal), a.cursor
 //@ ensures none-when-disabled: a.maximum == 0 ==> r0 == 0 && !r1
@@ -308,6 +322,8 @@ package mqtt
 //@ ensures invariant-kept: outInv(a)
 
 // verif:func mqtt.InboundTopicAliases.Set
+//@ requires C32-lock-not-held-by-this-goroutine: a.RWMutex.lheld == 0
+//@ ensures C32-lock-released-on-return: a.RWMutex.lheld == 0
 //@ requires a.internal != nil
 //@ modifies entries(a.internal)
 //@ ensures resolves-last-binding: a.maximum > 0 && topic == "" && old(has(a.internal, id)) ==> r0 == old(a.internal[id]) && a.internal[id] == old(a.internal[id])
@@ -509,6 +525,8 @@ package mqtt
 
 // registry invariant: registered clients are valid objects (trusted; established by newClient/attachClient)
 // verif:func mqtt.Clients.Get trusted
+//@ requires C32-lock-not-held-by-this-goroutine: cl.RWMutex.lheld == 0
+//@ ensures C32-lock-released-on-return: cl.RWMutex.lheld == 0
 //@ ensures r1 <==> has(cl.internal, id)
 //@ ensures r1 ==> r0 == cl.internal[id] && validCl(r0) && r0.State.Subscriptions != nil && r0.ID == id
 //@ ensures !r1 ==> r0 == nil
@@ -525,12 +543,16 @@ package mqtt
 //@ ensures len(cl.State.Inflight.internal) == 0 && (forall k uint16 :: !has(cl.State.Inflight.internal, k))
 
 // verif:func mqtt.Inflight.Clone trusted fresh
+//@ requires C32-lock-not-held-by-this-goroutine: i.RWMutex.lheld == 0
+//@ ensures C32-lock-released-on-return: i.RWMutex.lheld == 0
 //@ ensures r0 != nil && fresh(r0) && r0.internal != nil && r0.internal != i.internal
 //@ ensures forall k uint16 :: (has(r0.internal, k) <==> has(i.internal, k)) && r0.internal[k] == i.internal[k]
 //@ ensures len(r0.internal) == len(i.internal)
 //@ ensures r0.receiveQuota == 0 && r0.sendQuota == 0 && r0.maximumReceiveQuota == 0 && r0.maximumSendQuota == 0
 
 // verif:func mqtt.Subscriptions.GetAll trusted
+//@ requires C32-lock-not-held-by-this-goroutine: s.RWMutex.lheld == 0
+//@ ensures C32-lock-released-on-return: s.RWMutex.lheld == 0
 //@ ensures r0 != nil && fresh(r0)
 //@ ensures forall k string :: (has(r0, k) <==> has(s.internal, k)) && r0[k] == s.internal[k]
 
@@ -553,6 +575,8 @@ package mqtt
 // ======================================================================================
 // every element of the listing is a stored record, found under its own packet id
 // verif:func mqtt.Inflight.GetAll trusted
+//@ requires C32-lock-not-held-by-this-goroutine: i.RWMutex.lheld == 0
+//@ ensures C32-lock-released-on-return: i.RWMutex.lheld == 0
 //@ ensures forall j int :: 0 <= j && j < len(r0) ==> has(i.internal, r0[j].PacketID) && i.internal[r0[j].PacketID] == r0[j]
 
 // verif:def expiredP(p Packet, now int64) bool = p.ProtocolVersion == 5 && p.Expiry > 0 && p.Expiry < now
@@ -706,6 +730,8 @@ package mqtt
 // verif:func mqtt.Server.processAuth trusted modifies=all
 //@ ensures cl.State.Inflight == old(cl.State.Inflight)
 // verif:func mqtt.Inflight.NextImmediate trusted
+//@ requires C32-lock-not-held-by-this-goroutine: i.RWMutex.lheld == 0
+//@ ensures C32-lock-released-on-return: i.RWMutex.lheld == 0
 // verif:def validDispatch(s *Server, cl *Client) bool = validClPub(cl) && validSrv(s) && s.loop != nil && s.loop.willDelayed != nil && retainOK(s) && cl.State.Subscriptions != nil && cl.State.Subscriptions.internal != nil && s.Options.Capabilities.MaximumQos <= 2 && !has(ifl(cl), 0)
 
 // verif:func mqtt.Server.processPacket modifies=all
@@ -724,10 +750,14 @@ package mqtt
 // verif:ext sync.WaitGroup.Wait pure
 
 // verif:func mqtt.Clients.Add trusted
+//@ requires C32-lock-not-held-by-this-goroutine: cl.RWMutex.lheld == 0
+//@ ensures C32-lock-released-on-return: cl.RWMutex.lheld == 0
 //@ requires C13-registered-only-after-its-connack-attempt: val.connacked
 //@ modifies val.registered, entries(cl.internal)
 //@ ensures val.registered
 // verif:func mqtt.Clients.Delete trusted
+//@ requires C32-lock-not-held-by-this-goroutine: cl.RWMutex.lheld == 0
+//@ ensures C32-lock-released-on-return: cl.RWMutex.lheld == 0
 //@ modifies entries(cl.internal)
 
 // verif:func mqtt.Server.SendConnack modifies=all
@@ -757,14 +787,24 @@ package mqtt
 // total number of subscriptions in a SharedSubscriptions table (what its Len() counts)
 // verif:ghost field nshared ref int
 // verif:func mqtt.SharedSubscriptions.Len trusted pure
+//@ requires C32-lock-not-held-by-this-goroutine: s.RWMutex.lheld == 0
+//@ ensures C32-lock-released-on-return: s.RWMutex.lheld == 0
 //@ ensures r0 == s.nshared && r0 >= 0 && r0 <= 1099511627776
 // verif:func mqtt.Subscriptions.Len
+//@ requires C32-lock-not-held-by-this-goroutine: s.RWMutex.lheld == 0
+//@ ensures C32-lock-released-on-return: s.RWMutex.lheld == 0
 //@ ensures r0 == len(s.internal) && 0 <= r0 && r0 <= 1099511627776
 // verif:func mqtt.InlineSubscriptions.Len
+//@ requires C32-lock-not-held-by-this-goroutine: s.RWMutex.lheld == 0
+//@ ensures C32-lock-released-on-return: s.RWMutex.lheld == 0
 //@ ensures r0 == len(s.internal) && 0 <= r0 && r0 <= 1099511627776
 // verif:func mqtt.particles.len
+//@ requires C32-lock-not-held-by-this-goroutine: p.RWMutex.lheld == 0
+//@ ensures C32-lock-released-on-return: p.RWMutex.lheld == 0
 //@ ensures r0 == len(p.internal) && 0 <= r0 && r0 <= 1099511627776
 // verif:func mqtt.particles.delete
+//@ requires C32-lock-not-held-by-this-goroutine: p.RWMutex.lheld == 0
+//@ ensures C32-lock-released-on-return: p.RWMutex.lheld == 0
 //@ modifies entries(p.internal)
 //@ ensures !has(p.internal, id) && (forall k string :: k != id ==> (has(p.internal, k) <==> old(has(p.internal, k))) && p.internal[k] == old(p.internal[k]))
 // a node that holds nothing: no retained message, no children, no client / shared / inline subscriptions
@@ -814,12 +854,18 @@ package mqtt
 // verif:ghost field ginline ref (Array Int Bool) zero:mqtt.Subscribers
 
 // verif:func mqtt.particles.get pure
+//@ requires C32-lock-not-held-by-this-goroutine: p.RWMutex.lheld == 0
+//@ ensures C32-lock-released-on-return: p.RWMutex.lheld == 0
 //@ ensures r0 == p.internal[id]
 
 // copies of a node's tables (fresh maps with the same entries)
 // verif:func mqtt.SharedSubscriptions.GetAll trusted
+//@ requires C32-lock-not-held-by-this-goroutine: s.RWMutex.lheld == 0
+//@ ensures C32-lock-released-on-return: s.RWMutex.lheld == 0
 //@ ensures r0 != nil && fresh(r0)
 // verif:func mqtt.InlineSubscriptions.GetAll trusted
+//@ requires C32-lock-not-held-by-this-goroutine: s.RWMutex.lheld == 0
+//@ ensures C32-lock-released-on-return: s.RWMutex.lheld == 0
 //@ ensures r0 != nil && fresh(r0)
 //@ ensures forall k int :: (has(r0, k) <==> has(s.internal, k)) && r0[k] == s.internal[k]
 
@@ -921,13 +967,19 @@ package mqtt
 // verif:def retHit(x *TopicsIndex, t string, n *particle, d int, f string) bool = has(x.Retained.internal, t) && inTrie(rnode(t)) && rnode(t).retainPath == t && under(x, rnode(t), n, d) && rmatch(rnode(t), f, d)
 
 // verif:func packets.Packets.Get trusted
+//@ requires C32-lock-not-held-by-this-goroutine: p.RWMutex.lheld == 0
+//@ ensures C32-lock-released-on-return: p.RWMutex.lheld == 0
 //@ modifies p.ggot
 //@ ensures ok <==> has(p.internal, id)
 //@ ensures ok ==> val == p.internal[id]
 //@ ensures forall t string :: p.ggot[t] == old(p.ggot[t]) + ((t == id && ok) ? 1 : 0)
 // verif:func packets.Packets.Len trusted pure
+//@ requires C32-lock-not-held-by-this-goroutine: p.RWMutex.lheld == 0
+//@ ensures C32-lock-released-on-return: p.RWMutex.lheld == 0
 //@ ensures r0 == len(p.internal) && r0 >= 0 && (r0 == 0 ==> (forall t string :: !has(p.internal, t)))
 // verif:func mqtt.particles.getAll trusted
+//@ requires C32-lock-not-held-by-this-goroutine: p.RWMutex.lheld == 0
+//@ ensures C32-lock-released-on-return: p.RWMutex.lheld == 0
 //@ ensures r0 != nil && fresh(r0)
 //@ ensures forall k string :: (has(r0, k) <==> has(p.internal, k)) && r0[k] == p.internal[k]
 // verif:ext strings.HasPrefix pure params=s,prefix
@@ -964,6 +1016,8 @@ package mqtt
 //@ ensures fresh(r0) ==> emptyNode(r0) && (forall c string :: !has(r0.subscriptions.internal, c)) && (forall k int :: !has(r0.inlineSubscriptions.internal, k))
 //@ ensures old(wfTrie() && nodesValid()) ==> wfTrie() && nodesValid()
 // verif:func mqtt.TopicsIndex.RetainMessage
+//@ requires C32-no-lock-held-by-this-goroutine: forall m ref :: m.lheld == 0
+//@ ensures C32-every-lock-released-on-return: forall m ref :: m.lheld == 0
 //@ requires x.Retained != nil && x.Retained.internal != nil && x.root != nil && wfTrie() && nodesValid()
 //@ modifies entries(x.Retained.internal), allentries("string", "*particle"), all(particle.retainPath), x.Retained.ggot
 //@ ensures C05-message-with-payload-replaces-the-retained-one: len(pk.Payload) > 0 ==> r0 == 1 && has(rmap(x), pk.TopicName) && rmap(x)[pk.TopicName] == pk
@@ -1003,41 +1057,61 @@ package mqtt
 //@ ensures r0 == nil || (r0 == pathNode(filter, d) && r0.parent != nil && r0.subscriptions != nil && r0.shared != nil && r0.inlineSubscriptions != nil && allocated(r0))
 // the tables of a node: plain map wrappers
 // verif:func mqtt.Subscriptions.Get pure
+//@ requires C32-lock-not-held-by-this-goroutine: s.RWMutex.lheld == 0
+//@ ensures C32-lock-released-on-return: s.RWMutex.lheld == 0
 //@ ensures ok <==> has(s.internal, id)
 //@ ensures ok ==> val == s.internal[id]
 // verif:func mqtt.Subscriptions.Add
+//@ requires C32-lock-not-held-by-this-goroutine: s.RWMutex.lheld == 0
+//@ ensures C32-lock-released-on-return: s.RWMutex.lheld == 0
 //@ requires s.internal != nil
 //@ modifies entries(s.internal)
 //@ ensures has(s.internal, id) && s.internal[id] == val
 //@ ensures forall k string :: k != id ==> (has(s.internal, k) <==> old(has(s.internal, k))) && s.internal[k] == old(s.internal[k])
 // verif:func mqtt.Subscriptions.Delete
+//@ requires C32-lock-not-held-by-this-goroutine: s.RWMutex.lheld == 0
+//@ ensures C32-lock-released-on-return: s.RWMutex.lheld == 0
 //@ modifies entries(s.internal)
 //@ ensures !has(s.internal, id)
 //@ ensures forall k string :: k != id ==> (has(s.internal, k) <==> old(has(s.internal, k))) && s.internal[k] == old(s.internal[k])
 // verif:func mqtt.InlineSubscriptions.Get pure
+//@ requires C32-lock-not-held-by-this-goroutine: s.RWMutex.lheld == 0
+//@ ensures C32-lock-released-on-return: s.RWMutex.lheld == 0
 //@ ensures ok <==> has(s.internal, id)
 //@ ensures ok ==> val == s.internal[id]
 // verif:func mqtt.InlineSubscriptions.Add
+//@ requires C32-lock-not-held-by-this-goroutine: s.RWMutex.lheld == 0
+//@ ensures C32-lock-released-on-return: s.RWMutex.lheld == 0
 //@ requires s.internal != nil
 //@ modifies entries(s.internal)
 //@ ensures has(s.internal, val.Identifier) && s.internal[val.Identifier] == val
 //@ ensures forall k int :: k != val.Identifier ==> (has(s.internal, k) <==> old(has(s.internal, k))) && s.internal[k] == old(s.internal[k])
 // verif:func mqtt.InlineSubscriptions.Delete
+//@ requires C32-lock-not-held-by-this-goroutine: s.RWMutex.lheld == 0
+//@ ensures C32-lock-released-on-return: s.RWMutex.lheld == 0
 //@ modifies entries(s.internal)
 //@ ensures !has(s.internal, id)
 //@ ensures forall k int :: k != id ==> (has(s.internal, k) <==> old(has(s.internal, k))) && s.internal[k] == old(s.internal[k])
 // shared-subscription tables (group -> client -> subscription): abstract membership
 // verif:spec sharedHas(ref, string, string) bool
 // verif:func mqtt.SharedSubscriptions.Get trusted pure
+//@ requires C32-lock-not-held-by-this-goroutine: s.RWMutex.lheld == 0
+//@ ensures C32-lock-released-on-return: s.RWMutex.lheld == 0
 //@ ensures ok == sharedHas(s, group, id)
 // verif:func mqtt.SharedSubscriptions.Add trusted
+//@ requires C32-lock-not-held-by-this-goroutine: s.RWMutex.lheld == 0
+//@ ensures C32-lock-released-on-return: s.RWMutex.lheld == 0
 //@ modifies entries(s.internal), allentries("string", "packets.Subscription"), s.nshared
 // verif:func mqtt.SharedSubscriptions.Delete trusted
+//@ requires C32-lock-not-held-by-this-goroutine: s.RWMutex.lheld == 0
+//@ ensures C32-lock-released-on-return: s.RWMutex.lheld == 0
 //@ modifies entries(s.internal), allentries("string", "packets.Subscription"), s.nshared
 
 // verif:def isShare(f string) bool = foldEq(lvl0(f), "$SHARE")
 // verif:def subNode(f string) = pathNode(f, 0)
 // verif:func mqtt.TopicsIndex.Subscribe
+//@ requires C32-no-lock-held-by-this-goroutine: forall m ref :: m.lheld == 0
+//@ ensures C32-every-lock-released-on-return: forall m ref :: m.lheld == 0
 //@ requires x.root != nil
 //@ modifies subsview, nsubs, allentries("string", "*particle"), allentries("string", "packets.Subscription"), allentries("string", "map[string]packets.Subscription"), all(nshared)
 // the abstract view of the index that the handlers use (ghost; tied to the nodes by the index's representation invariant, which is assumed)
@@ -1050,6 +1124,8 @@ package mqtt
 
 // verif:def unsubNode(f string) = pathNode(f, isShare(f) ? 2 : 0)
 // verif:func mqtt.TopicsIndex.Unsubscribe
+//@ requires C32-no-lock-held-by-this-goroutine: forall m ref :: m.lheld == 0
+//@ ensures C32-every-lock-released-on-return: forall m ref :: m.lheld == 0
 //@ requires x.root != nil && wfTrie() && nodesValid()
 //@ modifies subsview, nsubs, allentries("string", "*particle"), allentries("string", "packets.Subscription"), allentries("string", "map[string]packets.Subscription"), all(nshared)
 //@ axiom r0 ==> nsubs == old(nsubs) - 1
@@ -1059,12 +1135,16 @@ package mqtt
 //@ ensures C31-unsubscribe-of-a-shared-subscription-reports-whether-it-existed: isShare(filter) && r0 ==> old(sharedHas(pathNode(filter, 2).shared, lvl1(filter), client))
 
 // verif:func mqtt.TopicsIndex.InlineSubscribe
+//@ requires C32-no-lock-held-by-this-goroutine: forall m ref :: m.lheld == 0
+//@ ensures C32-every-lock-released-on-return: forall m ref :: m.lheld == 0
 //@ requires x.root != nil
 //@ modifies allentries("string", "*particle"), allentries("int", "InlineSubscription"), ninlinesub
 //@ axiom ninlinesub == old(ninlinesub) + 1
 //@ ensures C31-inline-subscribe-reports-whether-the-subscription-is-new: r0 <==> (fresh(subNode(subscription.Filter)) || !old(has(subNode(subscription.Filter).inlineSubscriptions.internal, subscription.Identifier)))
 //@ ensures C31-inline-subscription-stored-at-the-filters-node: has(subNode(subscription.Filter).inlineSubscriptions.internal, subscription.Identifier) && subNode(subscription.Filter).inlineSubscriptions.internal[subscription.Identifier] == subscription
 // verif:func mqtt.TopicsIndex.InlineUnsubscribe
+//@ requires C32-no-lock-held-by-this-goroutine: forall m ref :: m.lheld == 0
+//@ ensures C32-every-lock-released-on-return: forall m ref :: m.lheld == 0
 //@ requires x.root != nil && wfTrie() && nodesValid()
 //@ modifies allentries("string", "*particle"), allentries("int", "InlineSubscription"), ninlineunsub
 //@ axiom ninlineunsub == old(ninlineunsub) + 1
@@ -1162,6 +1242,8 @@ package mqtt
 
 // ---- C15: housekeeping of disconnected sessions ----
 // verif:func mqtt.Clients.GetAll trusted
+//@ requires C32-lock-not-held-by-this-goroutine: cl.RWMutex.lheld == 0
+//@ ensures C32-lock-released-on-return: cl.RWMutex.lheld == 0
 //@ ensures r0 != nil && fresh(r0) && r0 != cl.internal
 //@ ensures forall k string :: (has(r0, k) <==> has(cl.internal, k)) && r0[k] == cl.internal[k] && (has(r0, k) ==> r0[k] != nil && r0[k].State.Inflight != nil && r0[k].State.Subscriptions != nil)
 // verif:func mqtt.Client.StopTime
@@ -1206,3 +1288,18 @@ package mqtt
 //@ ensures C16-retained-will-reaches-the-retained-store: aclOK(cl, old(cl.Properties.Will.TopicName), true) && old(cl.Properties.Will.Flag) != 0 && old(cl.Properties.Will.WillDelayInterval) == 0 && old(cl.Properties.Will.Retain) && s.Options.Capabilities.RetainAvailable != 0 ==> nretain == old(nretain) + 1
 //@ ensures C16-delayed-will-waits-for-its-delay: aclOK(cl, old(cl.Properties.Will.TopicName), true) && old(cl.Properties.Will.Flag) != 0 && old(cl.Properties.Will.WillDelayInterval) > 0 ==> nrouted == old(nrouted) && nretain == old(nretain) && has(wd(s), cl.ID) && wd(s)[cl.ID].TopicName == old(cl.Properties.Will.TopicName) && wd(s)[cl.ID].Expiry == unixOf(lastNow) + int64(old(cl.Properties.Will.WillDelayInterval))
 //@ ensures C17-will-needs-write-permission: !aclOK(cl, old(cl.Properties.Will.TopicName), true) ==> nrouted == old(nrouted) && nretain == old(nretain)
+// verif:func mqtt.Clients.GetByListener
+//@ requires C32-lock-not-held-by-this-goroutine: cl.RWMutex.lheld == 0
+//@ ensures C32-lock-released-on-return: cl.RWMutex.lheld == 0
+// verif:func mqtt.Clients.Len
+//@ requires C32-lock-not-held-by-this-goroutine: cl.RWMutex.lheld == 0
+//@ ensures C32-lock-released-on-return: cl.RWMutex.lheld == 0
+// verif:func mqtt.Hooks.Add
+//@ requires C32-lock-not-held-by-this-goroutine: h.Mutex.lheld == 0
+//@ ensures C32-lock-released-on-return: h.Mutex.lheld == 0
+// verif:func mqtt.SharedSubscriptions.GroupLen
+//@ requires C32-lock-not-held-by-this-goroutine: s.RWMutex.lheld == 0
+//@ ensures C32-lock-released-on-return: s.RWMutex.lheld == 0
+// verif:func mqtt.particles.add
+//@ requires C32-lock-not-held-by-this-goroutine: p.RWMutex.lheld == 0
+//@ ensures C32-lock-released-on-return: p.RWMutex.lheld == 0
